@@ -289,6 +289,13 @@ def _worker(args):
             row = match_known(known, prop, verdict["cls"], verdict["message"], case, verdict["details"])
             if row is not None:
                 agg["known_hit"][row["id"]] = agg["known_hit"].get(row["id"], 0) + 1
+            elif os.environ.get("VERIF_COLLECT"):
+                # triage mode: keep going, remember one example per (class, message head)
+                key = verdict["cls"] + " :: " + re.sub(r"[-+]?\d+(\.\d+)?", "#", verdict["message"])[:110]
+                tri = agg.setdefault("triage", {})
+                if key not in tri:
+                    tri[key] = {"n": 0, "run_index": i, "case": case, "details": verdict["details"], "message": verdict["message"][:400]}
+                tri[key]["n"] += 1
             else:
                 agg["violation"] = {
                     "run_index": i,
@@ -601,6 +608,18 @@ def run_check(check_name: str, tier: str, verif_seed: int, budget_s: float | Non
         if r["first"] is not None:
             first = r["first"] if first is None else min(first, r["first"])
             last = r["last"] if last is None else max(last, r["last"])
+    if os.environ.get("VERIF_COLLECT"):
+        tri = {}
+        for r in results:
+            for k, v in r.get("triage", {}).items():
+                if k in tri:
+                    tri[k]["n"] += v["n"]
+                else:
+                    tri[k] = v
+        with open(os.path.join(VERIF, "replays", f"{prop}-triage.json"), "w") as f:
+            json.dump(tri, f, indent=1)
+        for k, v in sorted(tri.items(), key=lambda kv: -kv[1]["n"]):
+            print(f"TRIAGE n={v['n']:5d} idx={v['run_index']} {k}")
     known = load_known()
     known_by_id = {row["id"]: row for row in known}
     for kid in sorted(tot["known_hit"]):
